@@ -117,6 +117,7 @@ func (s *mstate) fingerprint() string {
 type ord struct {
 	stmtRev, edgeRev, rowRev, interleave bool
 	perm                                 []int // explicit order of the statement's target rows (exhaustive fallback)
+	deferSelf                            bool  // restrictive self references are checked at the end of the statement (known-finding matcher only)
 }
 
 type merr struct{ class string }
@@ -308,6 +309,9 @@ func (m *mexec) deleteRow(t int, r *mrow, depth int) error {
 	old := g.CopyRow(r.vals)
 	act := func(f *fkey) error {
 		if f.onDel.restrictive() {
+			if m.o.deferSelf && f.self() {
+				return nil
+			}
 			if len(m.children(f, old)) > 0 {
 				m.f.restrictBlock++
 				return &merr{"parent"}
@@ -657,6 +661,18 @@ func (m *mexec) apply(s *stmt) error {
 		for _, r := range targets() {
 			if err := m.deleteRow(s.t, r, 0); err != nil {
 				return err
+			}
+		}
+		if m.o.deferSelf {
+			for _, f := range m.sc.fks {
+				if !f.self() {
+					continue
+				}
+				for _, c := range m.live(f.child) {
+					if err := m.checkRefs(f.child, c.vals, func(x *fkey) bool { return x == f }); err != nil {
+						return &merr{"parent"}
+					}
+				}
 			}
 		}
 	case "update":
